@@ -182,6 +182,25 @@ class C14(Prop):
             else:
                 s = "".join(rng.choice("0123456789") for _ in range(rng.randint(1, 8))) + "." + "".join(rng.choice("0123456789") for _ in range(rng.randint(1, 8))); ty = "FLOAT"
             out.append(Case("lex", {"script": vlib.hx(s)}, "numbers", expect={"tokens": ",".join([tok(ty, s), tok("EOF", "")])}, nontrivial=len(s) > 1))
+        # what a numeric / string literal DENOTES (run through Prepare and Execute): decimal value whatever the number of leading
+        # zeros, floats by their decimal expansion, ranges by their bounds
+        from gen import enc_value
+        def val_case(src, v, stream="literal-values"):
+            exp = {"o0.prep": "ok", "o1.class": "ok", "o1.value": enc_value(v)} if v is not NotImplemented else {"o0.prep": "error"}
+            return Case("run", {"script": vlib.hx(src), "objs": "N", "ops": "prepare:" + rng.choice(["opt", "noopt"]) + ";exec:0"}, stream, expect=exp, note=src)
+        ints = ["0", "00", "7", "007", "010", "08", "09", "0644", "0100", "0123456789", "65534", "65535", "65536", "000065536", "9223372036854775807", "0009223372036854775807"]
+        ints += ["".join(rng.choice("0123456789") for _ in range(rng.randint(1, 17))) for _ in range(200 if big else 40)]
+        ints += ["0" * rng.randint(1, 3) + "".join(rng.choice("0123456789") for _ in range(rng.randint(1, 12))) for _ in range(200 if big else 40)]
+        for t in ints:
+            out.append(val_case("return %s;" % t, int(t)))
+            out.append(val_case("return %s + 1;" % t, int(t) + 1) if int(t) < 9223372036854775807 else val_case("return %s;" % t, int(t)))
+            out.append(val_case("return [%s][0] == %d;" % (t, int(t)), True))
+        for t in ["0.5", "007.50", "010.25", "1.0", "00.125", "65535.5", "3.14159", "0.0", "100.000"]:
+            out.append(val_case("return %s;" % t, float(t)))
+        for a, b in (("1", "3"), ("01", "03"), ("007", "010"), ("0", "0")):
+            out.append(val_case("return %s..%s;" % (a, b), list(range(int(a), int(b) + 1))))
+        for t in ["0x10", "0b11", "0o17", "1_000", "1e3", "0xff", "12abc"]:
+            out.append(val_case("return %s;" % t, NotImplemented))
         # ranges: 1..3 is INT DOTDOT INT
         for a, b in ((1, 3), (0, 0), (10, 65536)):
             s = "%d..%d" % (a, b)
